@@ -955,6 +955,12 @@ func (p *Prog) assertionHelper(f *Func, call *ast.CallExpr, st *pstate) bool {
 	if !hasOK || !hasPanic {
 		return false
 	}
+	// an assertion changes nothing: a function with effects of its own (an import step that panics on failure) is not one
+	for _, e := range p.SummaryOf(g).Effs {
+		if e.Kind != "emit" {
+			return false
+		}
+	}
 	m := map[string]*Term{}
 	for i, a := range ce.CI.args {
 		m[fmt.Sprintf("P%d", i)] = a
